@@ -741,6 +741,7 @@ func init() {
 			c.CredentialsRequestScoped("C19") // every decision is taken under the request's own authenticated name
 			c.CheckSemantics("C07")           // "permitted" is what the permission checker answers for the account's name
 			c.RegexWholeName("C07")
+			c.PerEntryValues("C18")         // ... each store built from its own definition
 			c.ListsAsGiven("C18")           // every configured store is walked
 			c.OneInstance("C18", "fetcher") // the lister reads the fetcher instance that run-time creation adds to
 			c.ConfigOrderPreserved("C07")   // ... from the operation lists in the order the operator wrote them (first match wins)
